@@ -637,4 +637,12 @@ impl FrameDecoder {
             Some(s) => s.decoder_scratch.buffer.len(),
         }
     }
+
+    /// (cap, head, tail) of the decode buffer's ring, for the verification harness.
+    pub fn verif_ring_state(&self) -> (usize, usize, usize) {
+        match &self.state {
+            None => (0, 0, 0),
+            Some(s) => s.decoder_scratch.buffer.verif_ring().verif_state(),
+        }
+    }
 }
